@@ -625,11 +625,12 @@ func genStale(idx int, seed int64, thorough bool) *Scenario {
 	g.appendOp(0, 3+r.Intn(10))
 	g.add(Op{Kind: "START1"})
 	g.add(Op{Kind: "WAITIDLE"})
+	g.add(Op{Kind: "MARKNOTIFY"})
 	g.appendOp(0, 2+r.Intn(5)) // A: its notification takes the old size, then waits
-	g.add(Op{Kind: "sleep", Ms: 10 + r.Intn(20)})
+	g.add(Op{Kind: "WAITNOTIFY"})
 	g.appendOp(0, 5+r.Intn(10)) // B
-	g.add(Op{Kind: "sleep", Ms: 20 + r.Intn(30)})
-	g.appendOp(0, 500+r.Intn(300)) // C: a long reading round
+	g.add(Op{Kind: "sleep", Ms: 10 + r.Intn(30)})
+	g.appendOp(0, 800+r.Intn(400)) // C: a long reading round
 	s.Kill = KillPlan{Mode: "anomaly", DelayMs: 5000, Nth: 40 + r.Intn(80), Sleeps: "file.watcher.afterStat=sleep:400000:1.0"}
 	g.add(Op{Kind: "KILL"})
 	g.appendOp(0, 1+r.Intn(5))
